@@ -22,42 +22,50 @@ func (d Dict) render(f *File, w io.Writer, s *Statement) error {
 	first := true
 	// must order keys to ensure repeatable source
 	type kv struct {
-		k Code
-		v Code
+		key string
+		k   Code
+		v   Code
 	}
-	lookup := map[string]kv{}
-	keys := []string{}
+	pairs := []kv{}
 	for k, v := range d {
-		if k.isNull(f) || v.isNull(f) {
+		if k == nil || v == nil || k.isNull(f) || v.isNull(f) {
 			continue
 		}
 		buf := &bytes.Buffer{}
 		if err := k.render(f, buf, nil); err != nil {
 			return err
 		}
-		keys = append(keys, buf.String())
-		lookup[buf.String()] = kv{k: k, v: v}
+		pairs = append(pairs, kv{key: buf.String(), k: k, v: v})
 	}
-	sort.Strings(keys)
-	for _, key := range keys {
-		k := lookup[key].k
-		v := lookup[key].v
-		if first && len(keys) > 1 {
+	valueText := func(c Code) string {
+		buf := &bytes.Buffer{}
+		c.render(f, buf, nil)
+		return buf.String()
+	}
+	sort.Slice(pairs, func(i, j int) bool {
+		if pairs[i].key != pairs[j].key {
+			return pairs[i].key < pairs[j].key
+		}
+		// keys that render identically: order by the rendered value to keep the source repeatable
+		return valueText(pairs[i].v) < valueText(pairs[j].v)
+	})
+	for _, p := range pairs {
+		if first && len(pairs) > 1 {
 			if _, err := w.Write([]byte("\n")); err != nil {
 				return err
 			}
 			first = false
 		}
-		if err := k.render(f, w, nil); err != nil {
+		if err := p.k.render(f, w, nil); err != nil {
 			return err
 		}
 		if _, err := w.Write([]byte(":")); err != nil {
 			return err
 		}
-		if err := v.render(f, w, nil); err != nil {
+		if err := p.v.render(f, w, nil); err != nil {
 			return err
 		}
-		if len(keys) > 1 {
+		if len(pairs) > 1 {
 			if _, err := w.Write([]byte(",\n")); err != nil {
 				return err
 			}
@@ -71,7 +79,7 @@ func (d Dict) isNull(f *File) bool {
 		return true
 	}
 	for k, v := range d {
-		if !k.isNull(f) && !v.isNull(f) {
+		if k != nil && v != nil && !k.isNull(f) && !v.isNull(f) {
 			// if any of the key/value pairs are both not null, the Dict is not
 			// null
 			return false
